@@ -194,6 +194,7 @@ pub struct W1Scenario {
 fn allowed_features() -> gen::problem::Features {
     let mut allowed = gen::problem::Features::all();
     allowed.req_breaks = false; // reserved-time model is not part of the reference oracle
+    allowed.clustering = true; // the oracle judges bookkeeping and the time-independent rules of clustered tours
     allowed
 }
 
@@ -232,6 +233,12 @@ impl W1Scenario {
         }
         if case.problem["fleet"].get("resources").is_some() {
             sig.push("shared-resource");
+        }
+        if case.problem["plan"].get("clustering").is_some() {
+            sig.push("clustering");
+        }
+        if case.problem["plan"].get("relations").is_some() {
+            sig.push("relations");
         }
         let sig = sig.join("|");
         rec.issues = v
